@@ -48,8 +48,8 @@ func daysFromCivil(y int64, m int, d int64) int64 {
 		y--
 	}
 	era, yoe := floorDiv(y, 400)
-	mp := int64((m + 9) % 12)           // March = 0
-	doy := (153*mp+2)/5 + d - 1         // day of the March based year
+	mp := int64((m + 9) % 12)              // March = 0
+	doy := (153*mp+2)/5 + d - 1            // day of the March based year
 	doe := yoe*365 + yoe/4 - yoe/100 + doy // day of era
 	return era*146097 + doe - 719468
 }
@@ -74,7 +74,7 @@ func civilFromDays(z int64) (y int64, m int, d int) {
 
 // cdate is a civil date and time.
 type cdate struct {
-	y                  int64
+	y                   int64
 	mo, d, h, mi, s, ms int
 }
 
